@@ -182,8 +182,10 @@ func decrypt(
 	compressed bool,
 	err error,
 ) {
-	if decodedEncryptedKey[2]&0b11000000 == 0 {
-		return nil, false, fmt.Errorf("%w: ecMultiply keys are not supported", ErrInvalidEncryptedKey)
+	// The flag byte of a non-EC-multiplied key is 0b11000000, plus the compression bit 0b00100000.
+	// Every other bit is reserved and must be zero (the lot/sequence bit applies to EC-multiplied keys only).
+	if decodedEncryptedKey[2]|0b00100000 != 0b11100000 {
+		return nil, false, fmt.Errorf("%w: invalid flag byte for a non-ecMultiply key", ErrInvalidEncryptedKey)
 	}
 	compressed = decodedEncryptedKey[2]&0b00100000 != 0
 	addressHash := decodedEncryptedKey[3:7]
